@@ -18,9 +18,12 @@ inductive Next (q : Nat) : FState → FState → Prop where
   | deliver {s : FState} (m : FMsg) (h : m ∈ s.pending) : Next q s (s.deliver m)
   | idle {s : FState} (h : s.pending = []) : Next q s (s.idle q)
 
-def ReachesWithin (q : Nat) : FState → Nat → Prop
-  | s, 0 => s.goal = true
-  | s, f + 1 => s.goal = true ∨ ∀ s', Next q s s' → ReachesWithin q s' f
+/-- every fault-free execution from `s` reaches a state satisfying `P` within `f` steps -/
+def ReachesWithinP (P : FState → Bool) (q : Nat) : FState → Nat → Prop
+  | s, 0 => P s = true
+  | s, f + 1 => P s = true ∨ ∀ s', Next q s s' → ReachesWithinP P q s' f
+
+def ReachesWithin (q : Nat) : FState → Nat → Prop := ReachesWithinP FState.goal q
 
 theorem mem_succs_of_next {q : Nat} {s s' : FState} (h : Next q s s') : s' ∈ s.succs q := by
   cases h with
@@ -72,22 +75,22 @@ theorem mem_dedup (l : List FState) (x : FState) (h : x ∈ l) : x ∈ dedup l :
       · exact Or.inl (mem_addNew (Or.inr rfl))
       · exact Or.inr h
 
-/-- Soundness of the breadth-first explorer, for every frontier and every bound. -/
-theorem exploreSet_sound (q : Nat) (f : Nat) (F : List FState) (h : exploreSet q F f = true) :
-    ∀ s ∈ F, ReachesWithin q s f := by
+/-- Soundness of the breadth-first explorer, for every target, frontier and bound. -/
+theorem exploreSetP_sound (P : FState → Bool) (q : Nat) (f : Nat) (F : List FState)
+    (h : exploreSetP P q F f = true) : ∀ s ∈ F, ReachesWithinP P q s f := by
   induction f generalizing F with
   | zero =>
     intro s hs
-    simp only [exploreSet, List.all_eq_true] at h
+    simp only [exploreSetP, List.all_eq_true] at h
     exact h s hs
   | succ f ih =>
     intro s hs
-    simp only [exploreSet, Bool.or_eq_true] at h
-    by_cases hg : s.goal = true
+    simp only [exploreSetP, Bool.or_eq_true] at h
+    by_cases hg : P s = true
     · exact Or.inl hg
     · right
       intro s' hn
-      have hopen : s ∈ F.filter (fun s => !s.goal) := by
+      have hopen : s ∈ F.filter (fun s => !P s) := by
         simp [List.mem_filter, hs, hg]
       rcases h with h | h
       · rw [List.isEmpty_iff] at h
@@ -95,6 +98,41 @@ theorem exploreSet_sound (q : Nat) (f : Nat) (F : List FState) (h : exploreSet q
       · apply ih _ h
         apply mem_dedup
         exact List.mem_flatMap.mpr ⟨s, hopen, mem_succs_of_next hn⟩
+
+theorem exploreSet_sound (q : Nat) (f : Nat) (F : List FState) (h : exploreSet q F f = true) :
+    ∀ s ∈ F, ReachesWithin q s f := exploreSetP_sound FState.goal q f F h
+
+theorem reachesWithinP_mono (P : FState → Bool) (q : Nat) (s : FState) (f : Nat)
+    (h : ReachesWithinP P q s f) : ReachesWithinP P q s (f + 1) := by
+  induction f generalizing s with
+  | zero => exact Or.inl h
+  | succ f ih =>
+    rcases h with h | h
+    · exact Or.inl h
+    · exact Or.inr (fun s' hn => ih s' (h s' hn))
+
+theorem reachesWithinP_mono_add (P : FState → Bool) (q : Nat) (s : FState) (f k : Nat)
+    (h : ReachesWithinP P q s f) : ReachesWithinP P q s (f + k) := by
+  induction k with
+  | zero => exact h
+  | succ k ih => exact reachesWithinP_mono P q s (f + k) ih
+
+/-- Sequential composition: if every execution reaches a state of `T` within `f1` steps and every
+execution from a state of `T` reaches `P` within `f2` steps, every execution reaches `P` within `f1 + f2`. -/
+theorem reachesWithinP_seq (T P : FState → Bool) (q : Nat) (f2 : Nat)
+    (hT : ∀ t, T t = true → ReachesWithinP P q t f2) (s : FState) (f1 : Nat)
+    (h : ReachesWithinP T q s f1) : ReachesWithinP P q s (f1 + f2) := by
+  induction f1 generalizing s with
+  | zero =>
+    rw [Nat.zero_add]
+    exact hT s h
+  | succ f ih =>
+    rcases h with h | h
+    · have := reachesWithinP_mono_add P q s f2 (f + 1) (hT s h)
+      rw [Nat.add_comm] at this
+      exact this
+    · rw [Nat.add_right_comm]
+      exact Or.inr (fun s' hn => ih s' (h s' hn))
 
 theorem C30_n1 : ReachesWithin 1 (FState.init 1 2 2 6 Variant.fixed [5]) 4 :=
   exploreSet_sound 1 4 [FState.init 1 2 2 6 Variant.fixed [5]] (by decide +kernel) _ (List.mem_singleton.mpr rfl)
